@@ -8,7 +8,7 @@
 Require Import Base Overlap Mask MaskProofs.
 Require Import OverlapProofs Tables_lexer Lexer Condense ListLemmas TokenInv CondenseInv LexerProofs
   CondPatterns3 CondPattern CondSpaces CondInitialisms CondSuffixQuotes Shape NumberFinite WordsMaximal DocumentProofs
-  C02Wrappers C02Gapped C02WrappersProofs C02Quotes C02GapPasses C02Markdown C02MarkdownProofs C02NumberText C02Findings.
+  C02Wrappers C02Gapped C02WrappersProofs C02Quotes C02GapPasses C02Markdown C02MarkdownProofs C02NumberText C02Findings C02ZeroWidth C02ZeroWidthSuffix C02ZeroWidthDoc.
 From Coq Require Import ZArith.
 
 (* ---------- the lexer ---------- *)
@@ -678,3 +678,145 @@ Proof. exact zero_width_space_quirk_limit. Qed.
 Example C02_zero_width_out_of_text_limit :
   TokInv (length lim_c_src) lim_c_in /\ document_passes lim_c_src lim_c_in = Panic PIndex.
 Proof. exact zero_width_out_of_text_limit. Qed.
+
+(* ================= phase 6: the first passes of Document::parse on vectors WITH zero-width ParagraphBreaks =================
+   PbGapped a b ts (Proofs/C02ZeroWidth.v): the covering tokens are a gapped tiling of [a,b); every other token is a
+   zero-width ParagraphBreak, anywhere in the vector, at any position ("floating", as Markdown::parse pushes it). *)
+(* PbGapped is exactly the property's invariant + "every zero-width token is a ParagraphBreak" *)
+Theorem C02_pbgapped_iff_tokinv : forall n ts,
+  PbGapped 0 n ts <->
+  TokInv n ts /\ Forall (fun t => tstart t = tend t -> tkind_of t = KParagraphBreak) ts.
+Proof. exact pbgapped_iff_tokinv. Qed.
+Check C02_pbgapped_iff_tokinv : forall n ts,
+  PbGapped 0 n ts <->
+  TokInv n ts /\ Forall (fun t => tstart t = tend t -> tkind_of t = KParagraphBreak) ts.
+Print Assumptions C02_pbgapped_iff_tokinv.
+
+(* condense_spaces: total, invariant kept — although the pass is NOT a grouping there (C02_zero_width_space_quirk_limit:
+   the double increment skips a floating break and absorbs the Space behind it; a skipped covering token ends the run) *)
+Theorem C02_condense_spaces_pb : forall a b ts, PbGapped a b ts ->
+  exists ts', condense_spaces ts = Ok ts' /\ PbGapped a b ts'.
+Proof. exact condense_spaces_pb. Qed.
+Check C02_condense_spaces_pb : forall a b ts, PbGapped a b ts ->
+  exists ts', condense_spaces ts = Ok ts' /\ PbGapped a b ts'.
+Print Assumptions C02_condense_spaces_pb.
+
+(* condense_newlines: total, a grouping, invariant kept (a merged run holds Newline tokens only, all covering) *)
+Theorem C02_condense_newlines_pb : forall a b ts, PbGapped a b ts ->
+  exists ts', condense_newlines ts = Ok ts' /\ Grouped G_newlines ts ts' /\ PbGapped a b ts'.
+Proof. exact condense_newlines_pb. Qed.
+Check C02_condense_newlines_pb : forall a b ts, PbGapped a b ts ->
+  exists ts', condense_newlines ts = Ok ts' /\ Grouped G_newlines ts ts' /\ PbGapped a b ts'.
+Print Assumptions C02_condense_newlines_pb.
+
+(* newlines_to_breaks: invariant kept (a floating break stays what it is) *)
+Theorem C02_newlines_to_breaks_pb : forall a b ts, PbGapped a b ts ->
+  Grouped G_breaks ts (newlines_to_breaks ts) /\ PbGapped a b (newlines_to_breaks ts).
+Proof. exact newlines_to_breaks_pb. Qed.
+Check C02_newlines_to_breaks_pb : forall a b ts, PbGapped a b ts ->
+  Grouped G_breaks ts (newlines_to_breaks ts) /\ PbGapped a b (newlines_to_breaks ts).
+Print Assumptions C02_newlines_to_breaks_pb.
+
+(* any grouping whose rule is break-safe keeps the invariant (every rule G_* of Document::parse is break-safe on such vectors) *)
+Theorem C02_grouped_pbgapped : forall G ts ts', pb_rule G -> Grouped G ts ts' ->
+  forall a b, PbGapped a b ts -> PbGapped a b ts'.
+Proof. exact grouped_pbgapped. Qed.
+Check C02_grouped_pbgapped : forall G ts ts', pb_rule G -> Grouped G ts ts' ->
+  forall a b, PbGapped a b ts -> PbGapped a b ts'.
+Print Assumptions C02_grouped_pbgapped.
+
+(* non-vacuity: `Space Space <break> Space Newline Newline <break> Word` — the quirk shape with a floating break *)
+Example C02_zero_width_breaks_nonvacuous :
+  PbGapped 0 6 pb_ex_in /\ (Forall covers_chars pb_ex_in -> False) /\ 
+  condense_spaces pb_ex_in = Ok pb_ex_spaces /\ 
+  (exists t2, condense_newlines pb_ex_spaces = Ok t2 /\ newlines_to_breaks t2 = pb_ex_out) /\ 
+  PbGapped 0 6 pb_ex_out.
+Proof. exact pb_three_passes_example. Qed.
+
+(* condense_dotted_initialisms: total, a grouping ((one-letter Word, Period)+ holds no break), invariant kept *)
+Theorem C02_condense_dotted_initialisms_pb : forall a b ts, PbGapped a b ts ->
+  exists ts', condense_dotted_initialisms ts = Ok ts' /\ Grouped G_initialism ts ts' /\ PbGapped a b ts'.
+Proof. exact condense_dotted_initialisms_pb. Qed.
+Check C02_condense_dotted_initialisms_pb : forall a b ts, PbGapped a b ts ->
+  exists ts', condense_dotted_initialisms ts = Ok ts' /\ Grouped G_initialism ts ts' /\ PbGapped a b ts'.
+Print Assumptions C02_condense_dotted_initialisms_pb.
+
+(* condense_pattern, generic: a total, bounded matcher with monotone match ends whose matches never hold a ParagraphBreak *)
+Theorem C02_condense_pattern_pb : forall m edit a b ts,
+  PbGapped a b ts -> matcher_ok m ts -> monotone_ends m ts -> no_break_matches m ts ->
+  exists ts', condense_pattern m edit ts = Ok ts' /\ Grouped (G_pattern_in ts m edit) ts ts' /\ PbGapped a b ts'.
+Proof. exact condense_pattern_pb. Qed.
+Check C02_condense_pattern_pb : forall m edit a b ts,
+  PbGapped a b ts -> matcher_ok m ts -> monotone_ends m ts -> no_break_matches m ts ->
+  exists ts', condense_pattern m edit ts = Ok ts' /\ Grouped (G_pattern_in ts m edit) ts ts' /\ PbGapped a b ts'.
+Print Assumptions C02_condense_pattern_pb.
+
+(* the three fixed patterns meet the premises there: contraction and ellipsis on every vector; the Latin pattern reads the
+   span of Word tokens only (latin_refit), so CondPatterns3's facts carry over to vectors with floating breaks *)
+Theorem C02_patterns_ok_pb : forall src a ts, PbGapped a (length src) ts ->
+  no_break_matches (contraction_matches src) ts /\ no_break_matches (ellipsis_matches src) ts /\
+  matcher_ok (latin_matches src) ts /\ monotone_ends (latin_matches src) ts /\ no_break_matches (latin_matches src) ts.
+Proof. exact patterns_ok_pb. Qed.
+Check C02_patterns_ok_pb : forall src a ts, PbGapped a (length src) ts ->
+  no_break_matches (contraction_matches src) ts /\ no_break_matches (ellipsis_matches src) ts /\
+  matcher_ok (latin_matches src) ts /\ monotone_ends (latin_matches src) ts /\ no_break_matches (latin_matches src) ts.
+Print Assumptions C02_patterns_ok_pb.
+
+(* condense_number_suffixes + condense_indices: only the WORD operand's span is read (goodw) *)
+Theorem C02_condense_number_suffixes_pb : forall src a ts, PbGapped a (length src) ts ->
+  exists ts', condense_number_suffixes src ts = Ok ts' /\ Grouped (G_suffix src) ts ts' /\
+    PbGapped a (length src) ts'.
+Proof. exact condense_number_suffixes_pb. Qed.
+Check C02_condense_number_suffixes_pb : forall src a ts, PbGapped a (length src) ts ->
+  exists ts', condense_number_suffixes src ts = Ok ts' /\ Grouped (G_suffix src) ts ts' /\
+    PbGapped a (length src) ts'.
+Print Assumptions C02_condense_number_suffixes_pb.
+
+(* match_quotes: spans and kinds kept, so the invariant is *)
+Theorem C02_match_quotes_pb : forall a b ts, PbGapped a b ts ->
+  exists ts', match_quotes ts = Ok ts' /\ SameButTwins ts ts' /\ PbGapped a b ts' /\
+    QuotesOkBut (unpaired_quote ts) ts' /\ (NoTwins ts -> QuotesOk ts').
+Proof. exact match_quotes_pb. Qed.
+Check C02_match_quotes_pb : forall a b ts, PbGapped a b ts ->
+  exists ts', match_quotes ts = Ok ts' /\ SameButTwins ts ts' /\ PbGapped a b ts' /\
+    QuotesOkBut (unpaired_quote ts) ts' /\ (NoTwins ts -> QuotesOk ts').
+Print Assumptions C02_match_quotes_pb.
+
+(* ALL of Document::parse: never panics on a vector with floating zero-width ParagraphBreaks inside the text and keeps the
+   invariant (= TokInv + zero-width tokens are ParagraphBreaks, C02_pbgapped_iff_tokinv); quotes paired up to the unpaired one, all paired when the
+   vector arrives without twins (condense_spaces invents no quote: condense_spaces_notwins, for ANY vector) *)
+Theorem C02_document_passes_pb : forall src t0, PbGapped 0 (length src) t0 ->
+  exists t9, document_passes src t0 = Ok t9 /\ PbGapped 0 (length src) t9 /\
+    QuotesOkBut (unpaired_quote t9) t9 /\ (NoTwins t0 -> QuotesOk t9).
+Proof. exact document_passes_pb. Qed.
+Check C02_document_passes_pb : forall src t0, PbGapped 0 (length src) t0 ->
+  exists t9, document_passes src t0 = Ok t9 /\ PbGapped 0 (length src) t9 /\
+    QuotesOkBut (unpaired_quote t9) t9 /\ (NoTwins t0 -> QuotesOk t9).
+Print Assumptions C02_document_passes_pb.
+
+(* Document::new over Markdown, end to end, for every stream whose surviving zero-width tokens are ParagraphBreaks (no
+   Start(List) Newline): the document has the property's invariant.  Supersedes the domain of C02_document_markdown_partial *)
+Theorem C02_document_markdown_breaks : forall u ilt src evs,
+  Forall valid_char src -> md_contract src evs ->
+  exists ts, markdown_parse u ilt src evs = Ok ts /\ TokInv (length src) ts /\
+    (zw_only_breaks ts ->
+     exists t9, document_markdown u ilt src evs = Ok t9 /\
+       TokInv (length src) t9 /\ zw_only_breaks t9 /\ QuotesOkBut (unpaired_quote t9) t9 /\
+       (NoTwins ts -> QuotesOk t9)).
+Proof. exact document_markdown_breaks. Qed.
+Check C02_document_markdown_breaks : forall u ilt src evs,
+  Forall valid_char src -> md_contract src evs ->
+  exists ts, markdown_parse u ilt src evs = Ok ts /\ TokInv (length src) ts /\
+    (zw_only_breaks ts ->
+     exists t9, document_markdown u ilt src evs = Ok t9 /\
+       TokInv (length src) t9 /\ zw_only_breaks t9 /\ QuotesOkBut (unpaired_quote t9) t9 /\
+       (NoTwins ts -> QuotesOk t9)).
+Print Assumptions C02_document_markdown_breaks.
+
+(* non-vacuity: the real stream of `ab\n\ncd` — Word 0..2, ParagraphBreak 0..0 (zero-width, behind the Word), Word 4..6 *)
+Example C02_document_markdown_breaks_nonvacuous :
+  md_contract md_pb_src md_pb_evs /\
+  markdown_parse ascii_uni false md_pb_src md_pb_evs = Ok md_pb_out /\
+  zw_only_breaks md_pb_out /\ (Forall covers_chars md_pb_out -> False) /\
+  document_markdown ascii_uni false md_pb_src md_pb_evs = Ok md_pb_out.
+Proof. exact document_markdown_breaks_example. Qed.
